@@ -81,6 +81,10 @@ func (g *c17Gopls) Initialize(ctx context.Context, p *lsp.InitializeParams) (*ls
 
 func (g *c17Gopls) Initialized(ctx context.Context, p *lsp.InitializedParams) error { return nil }
 
+func (g *c17Gopls) DidChangeWatchedFiles(ctx context.Context, p *lsp.DidChangeWatchedFilesParams) error {
+	return nil
+}
+
 func (g *c17Gopls) DidOpen(ctx context.Context, p *lsp.DidOpenTextDocumentParams) error {
 	g.text[string(p.TextDocument.URI)] = p.TextDocument.Text
 	g.opened[string(p.TextDocument.URI)]++
@@ -128,7 +132,7 @@ func c17Generate(uri, text string) (string, bool) {
 
 type c17SrvStats struct {
 	ops, changes, opens, closes, parseOK, parseBad, openBad, ranged int
-	preload, preloadDiffers                                         int
+	preload, preloadDiffers, watched, crDocs                        int
 	uris                                                            map[string]int
 }
 
@@ -192,6 +196,22 @@ func c17RunServer(cs c17SrvCase, st *c17SrvStats) (msg string, failedAt int) {
 				st.closes++
 			}
 			continue
+		case "watched":
+			// workspace/didChangeWatchedFiles for the document's own file: another
+			// program rewrote it on disk. An open document is what the editor shows,
+			// so the server copy must stay equal to the editor's buffer.
+			if !open || !cs.Preload {
+				continue
+			}
+			if err := os.WriteFile(filepath.Join(c17WorkspaceDir(), "x.templ"), []byte(op.Text), 0o644); err != nil {
+				core.Infra("C17: cannot write scratch workspace file: %v", err)
+			}
+			if err := s.DidChangeWatchedFiles(ctx, &lsp.DidChangeWatchedFilesParams{Changes: []*lsp.FileEvent{{Type: lsp.FileChangeTypeChanged, URI: lsp.DocumentURI(c17URI)}}}); err != nil {
+				return fmt.Sprintf("op %d: didChangeWatchedFiles returned error: %v", i, err), i
+			}
+			if st != nil {
+				st.watched++
+			}
 		case "change":
 			if !open {
 				continue
@@ -271,6 +291,8 @@ func c17SrvKey(cs c17SrvCase) string {
 			fmt.Fprintf(&sb, " open(%q)", op.Text)
 		case "close":
 			sb.WriteString(" close")
+		case "watched":
+			fmt.Fprintf(&sb, " watched(%q)", op.Text)
 		default:
 			sb.WriteString(" change[")
 			for j, e := range op.Edits {
@@ -357,16 +379,27 @@ func c17ServerSessions(c *core.Ctx, report func(key, msg string, replay any)) {
 			cs.URI = c17URIs[rnd.Intn(len(c17URIs))]
 		}
 		st.uris[cs.URI]++
+		// every sixth session the editor's buffer has CRLF line endings (the LSP
+		// position model counts a CR as an ordinary character of its line)
+		crlf := rnd.Intn(6) == 0
+		if crlf {
+			st.crDocs++
+		}
 		cur, open := "", false
 		nops := 2 + rnd.Intn(25)
 		for k := 0; k < nops; k++ {
 			switch {
 			case !open:
 				cur, open = c17SrvDocs[rnd.Intn(len(c17SrvDocs))], true
+				if crlf {
+					cur = strings.ReplaceAll(cur, "\n", "\r\n")
+				}
 				cs.Ops = append(cs.Ops, c17SrvOp{Kind: "open", Text: cur})
 			case rnd.Intn(15) == 0:
 				open = false
 				cs.Ops = append(cs.Ops, c17SrvOp{Kind: "close"})
+			case cs.Preload && rnd.Intn(8) == 0:
+				cs.Ops = append(cs.Ops, c17SrvOp{Kind: "watched", Text: c17SrvDocs[rnd.Intn(len(c17SrvDocs))]})
 			default:
 				op := c17SrvOp{Kind: "change"}
 				for j, m := 0, 1+rnd.Intn(3); j < m; j++ {
@@ -412,6 +445,8 @@ func c17ServerSessions(c *core.Ctx, report func(key, msg string, replay any)) {
 	c.Set("server_sessions_with_workspace_preload", st.preload)
 	c.Set("server_sessions_where_editor_buffer_differs_from_preloaded_disk_text", st.preloadDiffers)
 	c.Set("server_sessions_per_uri_spelling", st.uris)
+	c.Set("server_didChangeWatchedFiles_for_the_open_document", st.watched)
+	c.Set("server_sessions_with_CRLF_documents", st.crDocs)
 	c.Set("server_states_where_buffer_is_valid_template_and_gopls_text_compared", st.parseOK)
 	c.Set("server_states_where_buffer_does_not_parse", st.parseBad)
 	if st.parseOK == 0 || st.parseBad == 0 || st.openBad == 0 || st.ranged == 0 {
